@@ -164,7 +164,7 @@ def binding_selftest(ctx, events, cfg):
 
 
 def model_check(ctx, thorough):
-    cfgs = ["RequestObsMC_quick_idem.cfg", "RequestObsMC_quick_nonidem.cfg"]
+    cfgs = ["RequestObsMC_quick_idem.cfg", "RequestObsMC_quick_nonidem.cfg", "RequestObsMC_local.cfg"]
     if thorough:
         cfgs += ["RequestObsMC_thorough_idem.cfg", "RequestObsMC_thorough_nonidem.cfg", "RequestObsMC_thorough_two.cfg"]
     for c in cfgs:
